@@ -631,11 +631,11 @@ func c10Child(r *ev.Run, batch int) {
 					rep(e.pair(cc, a, b, (i+j)%2 == 0), cc, a, b)
 					rep(e.peer(cc, a, b), cc, a, b)
 					rep(e.direct(cc, a, b, sm[(i*7+j*3)%len(sm)]), cc, a, b)
-				if comp := cols[(idx*5+3)%len(cols)]; comp.col.Name != cc.col.Name {
-					cs := comp.small()
-					r.Count("two_column_updates", 1)
-					rep(e.together(cc, a, b, comp, cs[(i*3+j)%len(cs)]), cc, a, b)
-				}
+					if comp := cols[(idx*5+3)%len(cols)]; comp.col.Name != cc.col.Name {
+						cs := comp.small()
+						r.Count("two_column_updates", 1)
+						rep(e.together(cc, a, b, comp, cs[(i*3+j)%len(cs)]), cc, a, b)
+					}
 				}()
 				if r.NeedSample() && len(a.k) > 2 && len(b.k) > 1 {
 					r.Sample(map[string]interface{}{"column": cc.col.Desc(), "a": a.String(), "b": b.String()})
